@@ -48,8 +48,11 @@ fn echo(req: &Request) -> std::pin::Pin<Box<dyn std::future::Future<Output = Str
     let q: Vec<String> = req.query.iter().map(|(k, v)| format!("{}={}", hex(k.as_bytes()), hex(v.as_bytes()))).collect();
     let x: Vec<String> = CUSTOM.iter().filter_map(|n| req.headers.get(n).map(|v| format!("{}={}", hex(n.as_bytes()), hex(v.as_bytes())))).collect();
     let a: Vec<String> = req.path.params().map(|p| hex(p.as_bytes())).collect();
-    let s = format!("M={};P={};Q={};H={};X={};B={};A={};C={}", req.method, hex(req.path.str().as_bytes()), q.join(","), std_echo(req), x.join(","),
-        req.payload().map(hex).unwrap_or_else(|| "-".into()), a.join(","), req.context.get::<Ctx>().map(|c| hex(c.0.as_bytes())).unwrap_or_else(|| "-".into()));
+    // the peer the request came from: the connection's own address (the scripted connection and the loopback socket both read "peer"),
+    // whatever an earlier request on the connection carried
+    let ip = if req.ip.is_unspecified() || req.ip.is_loopback() { "peer".to_string() } else { req.ip.to_string() };
+    let s = format!("M={};P={};Q={};H={};X={};B={};A={};C={};I={}", req.method, hex(req.path.str().as_bytes()), q.join(","), std_echo(req), x.join(","),
+        req.payload().map(hex).unwrap_or_else(|| "-".into()), a.join(","), req.context.get::<Ctx>().map(|c| hex(c.0.as_bytes())).unwrap_or_else(|| "-".into()), ip);
     Box::pin(async move { s })
 }
 
